@@ -27,6 +27,7 @@ def main():
                     t[km.k(k)] = vm.v(k % 4)
                 ref[k] = k % 4
             src = job["source"]
+            it = seq = None
             if src == "iter":
                 it = iter(t)
             elif src == "iteritems":
